@@ -5,7 +5,7 @@ use std::collections::BTreeSet;
 use bemodel::{Model, Schedule, ScheduleDay, ScheduleWeek, SchedulesDb, SpaceType, Uuid};
 use serde_json::json;
 
-use crate::convert::{convert_ctehexml_fast, convert_path, real_project_files, Conv};
+use crate::convert::{convert_path, real_project_files, Conv};
 use crate::core::{Case, Obs, Property, Tier};
 use crate::gen::bdl::{gen_building, month_day, print_blocks, ABlock, BuildCfg, Layout, MONTH_DAYS};
 use crate::gen::model::{gen_model, load_model, uuid, GenCfg};
@@ -175,7 +175,7 @@ impl C17 {
         let bdl = print_blocks(rng, &b.blocks(), &lay);
         let full = b.ctehexml(&bdl, "");
         obs.eval();
-        let m = match convert_ctehexml_fast(&full) {
+        let m = match crate::convert::convert_text_routed(true, &full) {
             Conv::Ok(m) => m,
             Conv::Err(e) => {
                 obs.violation("schedule-project-rejected", format!("conversion#{}: {}", case.index, e), json!({"bdl_head": bdl.chars().take(2500).collect::<String>()}));
